@@ -10,7 +10,7 @@ package ucon
 //@ func (*Message).DecodeRLP props C14
 //@ panics none
 //@ requires m != nil && s != nil
-//@ modifies all, c14Consumed, c14K, c14Sz, c14P
+//@ modifies all, c14Consumed, c14K, c14Sz, c14P, c14E
 //@ assert before return#1: [Code] m.Code == msg.Code
 //@ assert before return#1: [Payload] m.Payload == msg.Payload
 //@ assert before return#1: [Signature] m.Signature == msg.Signature
